@@ -7,7 +7,7 @@ import argparse, glob, json, os, re, shutil, subprocess, sys, tempfile, time
 from concurrent.futures import ThreadPoolExecutor
 
 VERIF = os.path.dirname(os.path.dirname(os.path.abspath(__file__)))
-REVERT = {"D1": "C01", "D2": "C12", "D4": "C11", "D5": "C10", "D6": "C17", "D7": "C20", "D8": "C04", "D11": "C14", "D14": "C03", "D15": "C14", "D16": "C20", "D17": "C04", "D18": "C07", "D19": "C13"}
+REVERT = {"D1": "C01", "D2": "C12", "D4": "C11", "D5": "C10", "D6": "C17", "D7": "C20", "D8": "C04", "D11": "C14", "D14": "C03", "D15": "C14", "D16": "C20", "D17": "C04", "D18": "C07", "D19": "C13", "D20": "C17"}
 
 
 def target(name):
